@@ -104,7 +104,7 @@ def run(chk):
 
     # ---- (c) covariance through the public methods ------------------------------------------------
     for it in range(30 if (thorough or chk.disagreements or chk.broken) else 9):
-        d = rng.choice([2, 3])
+        d = rng.choice([2, 3]) if it not in (7, 8) else 3
         ev = [rng.choice([-1.0, 0.0, 0.5, 1.0, 1.0]) for _ in range(d)]
         if len(set(ev)) == 1:
             ev[0] += 1.0
@@ -149,6 +149,12 @@ def run(chk):
             V = haar(rng, d)
             eps = 1e-9
             par = oqupy.TempoParameters(dt=0.1, epsrel=eps, dkmax=dkmax)
+        if it in (7, 8):
+            # every run (TEMPO, PT-TEMPO): a system Hamiltonian with a REPEATED eigenvalue, diagonal in the first frame and a full
+            # matrix in the rotated one (also the zero Hamiltonian / a multiple of the identity), no dissipators
+            method, storage = ["tempo", "pttempo"][it - 7], "memory"
+            H = np.diag(rng.choice([[0.8, 0.8, -0.4], [0.8, 0.8, -0.4], [-0.3, 0.6, 0.6], [0.5] * d])).astype(complex)
+            V = haar(rng, d)
         info = {"kind": "covariance", "method": method, "d": d, "eigenvalues": ev, "dkmax": dkmax, "unique": unique, "process_tensor": storage}
 
         def solve(Hh, Oo, rr):
